@@ -5,7 +5,11 @@ open WaVerif WaVerif.Proto WaVerif.C30
 
 /-! line protocol (model of `wa test`, `cfgCurrent` regenerated from the source):
 `run <pkg> <initOutHex> <g0> F1 F2 …` with
-   `F = name:T|E:0|1:N|O|P:<declhex>:R|P|A|X|T:<a>:<b>:<outhex>:<bump>:<printsG 0|1>`
+   `F = name:T|E:0|1:N|O|P:<declhex>:R|P|A|X|T:<a>:<b>:<outhex>:<bump>:<printsG 0|1>:<comments>`
+   (`<comments>` = the comment groups of the body, `;` between groups, `,` between comments, each
+    `L<hex>` for `//text` or `B<hex>` for `/*text*/`, `-` = none; N|O|P:<declhex> is the declaration the
+    generator INTENDED — the driver reports `specdecl=false` if `declSpec` of the comments differs;
+    the run uses `loaderDecl markerAnywhereCurrent` of the comments)
    (package init output and the value init gives the global counter; per function: kind, selected,
     declaration + hex text, end: Returns / Panics a=msg b=pos / Assert a=msg b=pos / eXits a=decimal
     code / Traps, own output after the optional counter line, counter increment, prints the counter;
@@ -27,9 +31,19 @@ def parseEnd (k a b : String) : Option End :=
   | "T" => some .traps
   | _ => none
 
-def parseFn (tok : String) : Option SFn :=
+def parseComment (c : String) : Option Comment :=
+  match c.toList with
+  | 'L' :: h => (textOfHex (String.ofList h)).map Comment.line
+  | 'B' :: h => (textOfHex (String.ofList h)).map Comment.block
+  | _ => none
+
+def parseGroups (s : String) : Option (List Group) :=
+  if s = "-" then some [] else
+  (s.splitOn ";").mapM (fun g => (g.splitOn ",").mapM parseComment)
+
+def parseFn (tok : String) : Option (SrcFn × Decl) :=
   match splitColon tok with
-  | [name, kind, sel, dk, dh, ek, a, b, oh, bump, pg] => do
+  | [name, kind, sel, dk, dh, ek, a, b, oh, bump, pg, cm] => do
     let dt ← textOfHex dh
     let decl ← (match dk with
       | "N" => some Decl.none
@@ -39,7 +53,8 @@ def parseFn (tok : String) : Option SFn :=
     let e ← parseEnd ek a b
     let out ← textOfHex oh
     let k ← parseNat bump
-    some ⟨name.toList, kind == "E", sel == "1", decl, k, pg == "1", out, e⟩
+    let gs ← parseGroups cm
+    some (⟨⟨name.toList, kind == "E", sel == "1", .none, k, pg == "1", out, e⟩, gs⟩, decl)
   | _ => none
 
 /-- Go's `%q` for the characters the generators use -/
@@ -62,7 +77,7 @@ def render (pkg : String) : Line → String
 def showRun (pkg : String) (r : List Line × Nat) : String :=
   "|".intercalate (s!"status={r.2}" :: r.1.map (render pkg))
 
-def parseAll : List String → Option (List SFn)
+def parseAll : List String → Option (List (SrcFn × Decl))
   | [] => some []
   | t :: ts => do
     let f ← parseFn t
@@ -71,17 +86,19 @@ def parseAll : List String → Option (List SFn)
 
 def handle (line : String) : String :=
   match words line with
-  | ["cfg"] => s!"testAbortFAIL={cfgCurrent.testAbortFAIL} exampleAbortFAIL={cfgCurrent.exampleAbortFAIL} initOutputLeaks={cfgCurrent.initOutputLeaks}"
+  | ["cfg"] => s!"testAbortFAIL={cfgCurrent.testAbortFAIL} exampleAbortFAIL={cfgCurrent.exampleAbortFAIL} initOutputLeaks={cfgCurrent.initOutputLeaks} markerAnywhere={markerAnywhereCurrent}"
   | ["loaderror"] => showRun "" (run cfgCurrent .loadError)
   | ["notestfiles"] => showRun "" (run cfgCurrent .noTestFiles)
   | "run" :: pkg :: ioh :: g0 :: toks => match parseAll toks, textOfHex ioh, parseNat g0 with
-    | some sfns, some io, some g =>
+    | some parsed, some io, some g =>
       let p : Pkg := ⟨io, g⟩
-      let r := run cfgCurrent (.fns p sfns)
-      let fns := resolved p sfns
+      let srcs := parsed.map (·.1)
+      let r := runSrc cfgCurrent markerAnywhereCurrent p srcs
+      let fns := contractFns p srcs
+      let specok := parsed.all (fun x => decide (declSpec x.1.comments = x.2))
       let meet := decide (allMeet fns)
       let guarded := fns.all (fun f => !f.selected || Guarded f)
-      s!"{showRun pkg r}|meet={meet} guarded={guarded}"
+      s!"{showRun pkg r}|meet={meet} guarded={guarded} specdecl={specok}"
     | _, _, _ => "bad-op"
   | _ => "bad-op"
 
